@@ -25,11 +25,13 @@ var c17Fams = []pagerFam{
 	{"suffix-htm", func(i int) string { return fmt.Sprintf("http://example.com/story_%d.htm", i) }},
 	{"query-deep", func(i int) string { return fmt.Sprintf("http://example.com/news/2020/story.php?id=77&pg=%d", i) }},
 	{"path-mid", func(i int) string { return fmt.Sprintf("http://example.com/story/%d/full", i) }},
+	{"suffix-padded", func(i int) string { return fmt.Sprintf("http://example.com/some-title-%02d.html", i) }},
+	{"path-padded", func(i int) string { return fmt.Sprintf("http://example.com/holiday/%02d", i) }},
 }
 
 var (
 	c17Seps  = []string{" ", " | ", "", "|", ", ", "/"}
-	c17Wraps = []string{"", "li", "span"}
+	c17Wraps = []string{"", "li", "span", "nav-li-pretty"}
 	c17Cur   = []string{"plain", "b", "strong", "span", "paren"}
 	c17Href  = []string{"abs", "rootrel"}
 	c17Deco  = []string{"", "[]", "()", "[ ]"}
@@ -72,7 +74,9 @@ func c17Pager(fam pagerFam, n, k int, sep, wrap, cur, href, deco string) string 
 			}
 			it = fmt.Sprintf("<a href=\"%s\">%s</a>", strings.ReplaceAll(h, "&", "&amp;"), label)
 		}
-		if wrap != "" {
+		if wrap == "nav-li-pretty" {
+			it = "\n    <li class=\"page-item\">\n      " + it + "\n    </li>"
+		} else if wrap != "" {
 			it = "<" + wrap + ">" + it + "</" + wrap + ">"
 		}
 		items = append(items, it)
@@ -80,6 +84,9 @@ func c17Pager(fam pagerFam, n, k int, sep, wrap, cur, href, deco string) string 
 	inner := strings.Join(items, sep)
 	if wrap == "li" {
 		return "<ul class=\"pages\">" + inner + "</ul>"
+	}
+	if wrap == "nav-li-pretty" {
+		return "<nav aria-label=\"pages\">\n  <ul class=\"pages\">" + inner + "\n  </ul>\n</nav>"
 	}
 	return "<div class=\"pages\">" + inner + "</div>"
 }
@@ -233,7 +240,7 @@ func init() {
 	eng.Register(&eng.Prop{
 		ID:        "C17",
 		DesignRef: "§5 C17",
-		Rule: "every (N in 2..12, k in 1..N) x 8 URL families x pager markups (separator incl. ones glued to the numbers, wrapper, current-page decoration, absolute/root-relative hrefs, bracketed link labels [i] (i) [ i ], pager before/after article, trailing slash on path families) for PageNumber; " +
+		Rule: "every (N in 2..12, k in 1..N) x 10 URL families (two with zero-padded numbers) x pager markups (separator incl. ones glued to the numbers, wrapper, current-page decoration, absolute/root-relative hrefs, bracketed link labels [i] (i) [ i ], pager before/after article, trailing slash on path families) for PageNumber; " +
 			"x {Prev,Previous} x 3 placements of the labelled anchors for PrevNext; quick varies at most one markup dimension at a time, thorough takes the full product. Oracle: next = link(k+1), prev = link(k-1). " +
 			"Non-trivial = inner pages (1<k<N), where both links are demanded.",
 		Enumerate: c17Enumerate,
